@@ -14,7 +14,11 @@ type zentry = {
   mutable hint_mt : z;
 }
 
+(* the zone table is kept as hex text (a thorough run has tens of thousands of mutated files); entries are built on
+   demand and only the most recently used ones are kept (cases of one zone are contiguous) *)
+let hextab : (string, string) Hashtbl.t = Hashtbl.create 64
 let table : (string, zentry) Hashtbl.t = Hashtbl.create 64
+let recent : string list ref = ref []
 let loaded = ref false
 
 let mk_entry (bytes : z list) : zentry =
@@ -40,7 +44,7 @@ let load_table () =
         | Some i ->
           let id = String.sub line 0 i in
           let hx = String.sub line (i + 1) (String.length line - i - 1) in
-          Hashtbl.replace table id (mk_entry (bytes_of_hex hx))
+          Hashtbl.replace hextab id hx
         | None -> ()
       done with End_of_file -> ());
       close_in ic
@@ -62,6 +66,16 @@ let mk_named (name : z list) : zentry =
     changes = lazy [];
     hint_bt = Z0; hint_mt = Z0 }
 
+let touch id =
+  if not (List.mem id !recent) then begin
+    recent := id :: !recent;
+    if List.length !recent > 12 then begin
+      let keep = List.filteri (fun i _ -> i < 6) !recent in
+      List.iter (fun old -> if not (List.mem old keep) then Hashtbl.remove table old) !recent;
+      recent := keep
+    end
+  end
+
 let get id =
   load_table ();
   match Hashtbl.find_opt table id with
@@ -69,8 +83,13 @@ let get id =
   | None ->
     if String.length id > 2 && String.sub id 0 2 = "N:" then begin
       let e = mk_named (bytes_of_hex (String.sub id 2 (String.length id - 2))) in
-      Hashtbl.replace table id e; e
-    end else raise Not_found
+      Hashtbl.replace table id e; touch id; e
+    end else
+      (match Hashtbl.find_opt hextab id with
+       | Some hx -> let e = mk_entry (bytes_of_hex hx) in Hashtbl.replace table id e; touch id; e
+       | None -> raise Not_found)
+
+let known_zone id = load_table (); Hashtbl.mem table id || Hashtbl.mem hextab id
 
 let show_al (al : alookup) =
   Printf.sprintf "%s %s %s %s" (string_of_z al.al_off) (b2s al.al_dst) (hex_of_bytes al.al_abbr) (show_fields al.al_cs)
@@ -291,7 +310,7 @@ let run_case_inner (a : string array) : string =
         let id = String.sub s 2 (String.length s - 2) in
         let cut c id = match String.index_opt id c with Some i -> String.sub id 0 i | None -> id in
         let id = cut '%' (cut '#' id) in
-        (match Hashtbl.find_opt table id with Some e -> Some e.bytes | None -> None)
+        (if known_zone id then Some (get id).bytes else None)
       end else None in
     let bytes_of s = List.init (String.length s) (fun i -> z_of_int (Char.code s.[i])) in
     let str_of n = String.concat "" (List.map (fun c -> String.make 1 (Char.chr ((int_of_z c) land 255))) n) in
@@ -361,4 +380,4 @@ let run_case_inner (a : string array) : string =
 
 let run_case (a : string array) : string =
   let r = run_case_inner a in
-  if Array.length a > 1 && Hashtbl.mem table a.(1) && f9_zone (Hashtbl.find table a.(1)) then r ^ " ; K F9" else r
+  if Array.length a > 1 && known_zone a.(1) && f9_zone (get a.(1)) then r ^ " ; K F9" else r
